@@ -1,0 +1,43 @@
+//go:build verif
+
+package cafs
+
+import "sync"
+
+// simLock is the lock behind LeafBuffer.Pin / Unpin, and the type of the latches that may be held while waiting for a pin
+// (the reader's cache latch and prefetch latch). Under simulation a goroutine may be parked at a yield point while it
+// holds a pinned buffer; waiting for a sync.Mutex is invisible to testing/synctest (the bubble would never be seen
+// as quiescent), waiting on a channel is not: same mutual exclusion, built on a channel.
+type simLock struct {
+	once sync.Once
+	ch   chan struct{}
+}
+
+func (p *simLock) init() { p.once.Do(func() { p.ch = make(chan struct{}, 1) }) }
+
+// Lock acquires the lock.
+func (p *simLock) Lock() {
+	p.init()
+	p.ch <- struct{}{}
+}
+
+// Unlock releases it.
+func (p *simLock) Unlock() {
+	p.init()
+	select {
+	case <-p.ch:
+	default:
+		panic("cafs: unlock of an unlocked lock")
+	}
+}
+
+// SimYield is a hook for deterministic simulation (build tag "verif" only): when set, it is called at the points marked
+// by simYield and may block the calling goroutine until a simulator's scheduler lets it proceed, so that interleavings
+// between purely in-memory steps of concurrent readers and writers can be chosen, replayed and minimised.
+var SimYield func(site string)
+
+func simYield(site string) {
+	if f := SimYield; f != nil {
+		f(site)
+	}
+}
